@@ -41,6 +41,22 @@ MUTANTS = [
      "            self.full_span_start == preceding.full_span_start", ["C17"]),
     ("journal-placeholder-hash", "eyecite/models.py", "        if \"page\" in self.groups and self.groups[\"page\"] is None:\n            return id(self)\n        return hash(\n            hash_sha256(\n                {\n                    **dict(self.groups.items()),\n                    **{\n                        \"all_editions\"",
      "        return hash(\n            hash_sha256(\n                {\n                    **dict(self.groups.items()),\n                    **{\n                        \"all_editions\"", ["C06", "C16"]),
+    ("annotate-no-clamp-end", "eyecite/annotate.py", "            end = max(start, offset_updater.update(end, bisect_left))",
+     "            end = offset_updater.update(end, bisect_left)", ["C09", "C11"]),
+    ("annotate-style-repair-overlap", "eyecite/annotate.py", "                if start < last_end or not is_balanced_html(span_text):",
+     "                if not is_balanced_html(span_text):", ["C09", "C11"]),
+    ("annotate-bisect-swap-start", "eyecite/annotate.py", "            start = offset_updater.update(start, bisect_right)",
+     "            start = offset_updater.update(start, bisect_left)", ["C10"]),
+    ("annotate-bisect-swap-end", "eyecite/annotate.py", "offset_updater.update(end, bisect_left))", "offset_updater.update(end, bisect_right))", ["C10"]),
+    ("annotate-no-overlap-clip", "eyecite/annotate.py", "            start = last_end\n            if start >= end:", "            if start >= end:", ["C09"]),
+    ("wrap-no-reopen", "eyecite/utils.py", 'rf"{before}\\1{after}"', 'rf"{before}\\1"', ["C11"]),
+    ("skip-no-retest", "eyecite/annotate.py", "                if start < last_end or not is_balanced_html(span_text):",
+     "                if start < last_end:", ["C11"]),
+    ("spanupdater-delta", "eyecite/annotate.py", "                delta -= amount\n", "                delta -= amount - 1\n", ["C10"]),
+    ("clean-underscores-three", "eyecite/clean.py", 'return re.sub(r"__+", "", text)', 'return re.sub(r"___+", "", text)', ["C20"]),
+    ("clean-allws-ascii", "eyecite/clean.py", 'return re.sub(r"\\s+", " ", text)', 'return re.sub(r"[ \\t\\n\\r]+", " ", text)', ["C20"]),
+    ("clean-html-keep-script", "eyecite/clean.py", "            parent::script)]", "            parent::noscript)]", ["C20"]),
+    ("clean-steps-skip-callable", "eyecite/clean.py", "        elif callable(step):\n            step_func = step", "        elif callable(step):\n            continue", ["C20"]),
 ]
 
 
